@@ -118,3 +118,33 @@ theorem chan_run_exact (limit : Nat) (c : Chan α) (ops : List (Op α))
 end Chan
 
 end MV.Model.Link
+
+namespace MV.Model.LinkSys
+open MV.Model.Link
+
+theorem resolve_spec (s : Sys) (hup : s.up = true ∨ s.cur.isSome = true) :
+    ∃ e, (resolve s).2 = some e ∧ (resolve s).1.cur = some e ∧ (resolve s).1.a = s.a ∧ (resolve s).1.b = s.b := by
+  unfold resolve
+  cases hc : s.cur with
+  | some e => exact ⟨e, rfl, hc, rfl, rfl⟩
+  | none =>
+    have hu : s.up = true := by
+      rcases hup with h | h
+      · exact h
+      · rw [hc] at h; simp at h
+    simp [hu]
+
+theorem transmit_delivers (fuel : Nat) (s : Sys) (i : Nat) (e : Nat) (pid : Pid) (system : Bool)
+    (sender : Option Pid) (b : Body Pay)
+    (hcur : s.cur = some e)
+    (hpeer : pid.phys = (s.node (other i)).phys)
+    (hreg : pid.logical ∈ (s.node (other i)).reg) :
+    (transmit (fuel + 1) s i (some e) system (some pid) sender (.wrapped sender (some pid) b)).2 =
+      .seen [(other i, ⟨pid.logical, system, sender, some pid, .wrapped sender (some pid) b⟩)] := by
+  have hroute : route (cfg s (other i)) (some pid) = .proc pid.logical := by
+    simp [route, cfg, hpeer, hreg]
+  simp only [transmit, pack, codec, Option.map_some, unpack, hcur, ne_eq, not_true_eq_false,
+    Option.isNone_some, Bool.or_self, Bool.false_eq_true, if_false, decide_false]
+  simp [deliverRoute, hroute, deliverLocal]
+
+end MV.Model.LinkSys
